@@ -10,6 +10,102 @@ def pF (s : String) : Float := Float.ofBits (s.toNat!.toUInt64)
 def sF (x : Float) : String := toString x.toBits.toNat
 def sI (i : Ival Float) : String := s!"{sF i.lo} {sF i.hi}"
 
+def hexVal (c : Char) : Nat :=
+  if c.isDigit then c.toNat - '0'.toNat else if 'a' ≤ c && c ≤ 'f' then c.toNat - 'a'.toNat + 10 else c.toNat - 'A'.toNat + 10
+
+def pHex (s : String) : ByteArray :=
+  if s == "-" then ByteArray.empty else
+  let rec go : List Char → ByteArray → ByteArray
+    | a :: b :: rest, acc => go rest (acc.push (UInt8.ofNat (16 * hexVal a + hexVal b)))
+    | _, acc => acc
+  go s.toList ByteArray.empty
+
+def pStr (s : String) : String := match String.fromUTF8? (pHex s) with | some x => x | none => ""
+def pU (s : String) : UInt64 := s.toNat!.toUInt64
+def pI (s : String) : Int := s.toInt!
+
+/-- a cursor over the tokens of a request -/
+structure Cur where
+  toks : Array String
+  pos : Nat := 0
+abbrev P := StateM Cur
+def nxt : P String := modifyGet fun c => (c.toks.getD c.pos "", { c with pos := c.pos + 1 })
+def nF : P Float := pF <$> nxt
+def nU : P UInt64 := pU <$> nxt
+def nI : P Int := pI <$> nxt
+def nN : P Nat := String.toNat! <$> nxt
+def rep {β : Type} (n : Nat) (p : P β) : P (List β) := (List.range n).mapM (fun _ => p)
+
+def pSupp : P (SuppParams Float) := do
+  let lt ← nI; let sd ← nF; let gap ← nF
+  return ⟨lt, sd, gap⟩
+
+def pKind : P CounterKind := do
+  match (← nxt) with
+  | "u" => return .unique
+  | _ => let d ← nN; let c ← nN; return .generic d c
+
+def showExI : Except String Int → String
+  | .ok n => toString n
+  | .error e => "ERR " ++ e
+
+def handleP (op : String) : P String := do
+  match op with
+  | "hstr" => return toString (hashString realEnv (pStr (← nxt)))
+  | "hint" => return toString (hashInt realEnv (← nU))
+  | "hstrs" => do let n ← nN; let l ← rep n (pStr <$> nxt); return toString (hashStrings realEnv l)
+  | "ssalt" => do let salt := pHex (← nxt); return toString (saltedSeed realEnv salt (← nU))
+  | "bm" => return sF (boxMuller (← nU))
+  | "lcf" => do
+      let salt := pHex (← nxt); let p ← pSupp; let n ← nN
+      let ts ← rep n (do let c ← nI; let s ← nU; return (c, s))
+      return if isLowCount realEnv salt p ts then "1" else "0"
+  | "ecnt" => do
+      let salt := pHex (← nxt); let p ← pSupp; let k ← pKind
+      let dims := match k with | .unique => 1 | .generic d _ => d
+      let n ← nN
+      let rows ← rep n (rep dims nU)
+      let c := k.newEntity.addMany rows
+      let low := c.isLowCount realEnv salt p
+      let tr := c.trackers
+      return (if low then "1" else "0") ++ " " ++ toString tr.length ++ String.join (tr.map fun (a, b) => s!" {a} {b}")
+  | "compact" => do
+      let ol ← nI; let ou ← nI; let tl ← nI; let tu ← nI; let total ← nI
+      return match compactIntervals ⟨ol, ou⟩ ⟨tl, tu⟩ total with
+        | .error e => "ERR " ++ e
+        | .ok none => "none"
+        | .ok (some (o, t)) => s!"{o.lower} {o.upper} {t.lower} {t.upper}"
+  | "cnt1" => do
+      let salt := pHex (← nxt); let sd ← nF; let bs ← nU; let c ← nI; let seed ← nU
+      let ap : AnonParams Float := ⟨salt, ⟨0, 0, 0⟩, ⟨2, 5⟩, ⟨2, 5⟩, sd⟩
+      return toString (countSingle realEnv ap bs c seed)
+  | "cntm" => do
+      let salt := pHex (← nxt); let sd ← nF; let ol ← nI; let ou ← nI; let tl ← nI; let tu ← nI
+      let bs ← nU; let dims ← nN
+      let cl ← rep dims (do
+        let un ← nN; let k ← nN
+        let cs ← rep k (do let p ← nU; let c ← nN; return (p, c))
+        return ({ counts := cs, unaccounted := un } : PidContributions))
+      let ap : AnonParams Float := ⟨salt, ⟨0, 0, 0⟩, ⟨ol, ou⟩, ⟨tl, tu⟩, sd⟩
+      return match countMultiple realEnv ap bs cl with
+        | .error e => "ERR " ++ e
+        | .ok none => "none"
+        | .ok (some n) => toString n
+  | "rowcnt" => do   -- released count of a row list through the row counter of the given kind
+      let salt := pHex (← nxt); let sd ← nF; let ol ← nI; let ou ← nI; let tl ← nI; let tu ← nI
+      let bs ← nU; let k ← pKind
+      let dims := match k with | .unique => 1 | .generic d _ => d
+      let n ← nN
+      let rows ← rep n (rep dims nU)
+      let ap : AnonParams Float := ⟨salt, ⟨0, 0, 0⟩, ⟨ol, ou⟩, ⟨tl, tu⟩, sd⟩
+      return showExI (rowNoisyCount realEnv ap k bs rows)
+  | "rowlimit" => do
+      let salt := pHex (← nxt); let seed ← nU; let rows ← nN; let fr ← nN
+      return toString (noisyRowLimit realEnv salt seed rows fr)
+  | "round" => return toString (ScalarOps.roundHE (← nF))
+  | "trunc" => return toString (ScalarOps.trunc (← nF))
+  | _ => return "ERR bad-op"
+
 def handle (toks : List String) : String :=
   match toks with
   | ["snap", lo, hi] =>
@@ -26,7 +122,8 @@ def handle (toks : List String) : String :=
   | ["cval", lo, hi, v] => toString ((⟨pF lo, pF hi⟩ : Ival Float).containsValue (pF v))
   | ["civ", lo, hi, lo2, hi2] => toString ((⟨pF lo, pF hi⟩ : Ival Float).containsIval ⟨pF lo2, pF hi2⟩)
   | ["ovl", lo, hi, lo2, hi2] => toString ((⟨pF lo, pF hi⟩ : Ival Float).overlaps ⟨pF lo2, pF hi2⟩)
-  | _ => "ERR bad-op"
+  | op :: rest => (handleP op).run' { toks := rest.toArray }
+  | [] => "ERR bad-op"
 
 partial def loop (h : IO.FS.Stream) (out : IO.FS.Stream) : IO Unit := do
   let line ← h.getLine
